@@ -407,45 +407,96 @@ def sortNat (l : List Nat) : List Nat := l.mergeSort (fun x y => x ≤ y)
 
 def u32s (e : Endian) (l : List Nat) : Bytes := l.flatMap (fun v => e.enc 4 (v % 2 ^ 32))
 
-/-- `serialize` (after fixes D1, D2). -/
-def serialize (c : Codec) (a : BinArchive) : Res Bytes := do
-  let e := a.endian
-  -- c-string pool
-  let cstrs := a.cstrings.mergeSort (fun x y => bytesLe ((c.enc x.1).getD []) ((c.enc y.1).getD []))
-  let (pool, cptrs) ← cstrs.foldlM (init := ((⟨[], []⟩ : TextPool), ([] : List (Nat × Nat))))
-    (fun (st : TextPool × List (Nat × Nat)) (p : Str × List Nat) => do
-      let (tp, off) ← addText c st.1 p.1
-      pure (tp, st.2 ++ p.2.map (fun addr => (addr, a.data.length + off))))
-  let rawCStrings := padTo4 pool.raw
-  -- internal pointers (plus c-string pointers), ascending by source
-  let pointers := (a.pointers ++ cptrs).mergeSort (fun x y => x.1 ≤ y.1)
-  let data ← pointers.foldlM (init := a.data) (fun d p => patchWord e d p.1 p.2)
-  let rawPointers := pointers.map (·.1)
-  -- labels
-  let labels := match e with
-    | .big => a.labels.mergeSort (fun x y =>
-        if x.2 = y.2 then x.1 ≤ y.1 else bucketCmpLe x.2 y.2)
-    | .little => a.labels.mergeSort (fun x y => x.1 ≤ y.1)
-  let (tp, rawLabels) ← (labels.flatMap (fun p => p.2.map (fun l => (p.1, l)))).foldlM
-    (init := ((⟨[], []⟩ : TextPool), ([] : List Nat)))
-    (fun (st : TextPool × List Nat) (al : Nat × Str) => do
-      let (tp, off) ← addText c st.1 al.2
-      pure (tp, st.2 ++ [al.1, off]))
-  -- strings
-  let text := a.text.mergeSort (fun x y => x.1 ≤ y.1)
-  let textStart := a.data.length + rawCStrings.length
-    + (rawPointers.length + a.text.length + rawLabels.length) * 4
-  let (tp, data, groups) ← text.foldlM (init := (tp, data, ([] : List (Nat × List Nat))))
-    (fun (st : TextPool × Bytes × List (Nat × List Nat)) (p : Nat × Str) => do
-      let (tp, off) ← addText c st.1 p.2
-      let d ← patchWord e st.2.1 p.1 (textStart + off)
-      pure (tp, d, pushGroup st.2.2 off p.1))
+/-- Sort key of a c-string bucket: `SHIFT_JIS.encode(text)` (`:327-333`; the lossy encoding of an
+unencodable string is not modelled — `add_text` rejects such an archive whatever the order). -/
+def cstrKey (c : Codec) (p : Str × List Nat) : Bytes := (c.enc p.1).getD []
+
+def cstrLe (c : Codec) (x y : Str × List Nat) : Bool := bytesLe (cstrKey c x) (cstrKey c y)
+
+/-- `a.0.cmp(&b.0)` on `(address, _)` pairs. -/
+def bySource {β : Type} (x y : Nat × β) : Bool := decide (x.1 ≤ y.1)
+
+/-- Label-bucket order (`:352-356`): big-endian by name list then address (fix D2), little-endian
+by address. -/
+def labelLe (e : Endian) (x y : Nat × List Str) : Bool :=
+  match e with
+  | .big => if x.2 = y.2 then decide (x.1 ≤ y.1) else bucketCmpLe x.2 y.2
+  | .little => decide (x.1 ≤ y.1)
+
+/-- Body of the c-string loop (`:334-340`): state = pool × pointers pushed so far. -/
+def cstringStep (c : Codec) (dataLen : Nat) (st : TextPool × List (Nat × Nat))
+    (p : Str × List Nat) : Res (TextPool × List (Nat × Nat)) :=
+  match addText c st.1 p.1 with
+  | .ok (tp, off) => .ok (tp, st.2 ++ p.2.map (fun addr => (addr, dataLen + off)))
+  | .err e => .err e
+  | .panic => .panic
+
+/-- Body of the label loop (`:358-364`), per `(address, label)`: state = pool × `raw_labels`. -/
+def labelStep (c : Codec) (st : TextPool × List Nat) (al : Nat × Str) : Res (TextPool × List Nat) :=
+  match addText c st.1 al.2 with
+  | .ok (tp, off) => .ok (tp, st.2 ++ [al.1, off])
+  | .err e => .err e
+  | .panic => .panic
+
+/-- Body of the string loop (`:372-385`): state = pool × data × `ptr_data_pairs`. -/
+def textStep (c : Codec) (e : Endian) (textStart : Nat)
+    (st : TextPool × Bytes × List (Nat × List Nat)) (p : Nat × Str) :
+    Res (TextPool × Bytes × List (Nat × List Nat)) :=
+  match addText c st.1 p.2 with
+  | .ok (tp, off) =>
+    match patchWord e st.2.1 p.1 (textStart + off) with
+    | .ok d => .ok (tp, d, pushGroup st.2.2 off p.1)
+    | .err er => .err er
+    | .panic => .panic
+  | .err er => .err er
+  | .panic => .panic
+
+/-- The last part of `serialize` (`:386-416`): grouped string pointers, header, concatenation.
+`dataLen` is `self.data.len()`, `data` the patched copy. -/
+def assemble (e : Endian) (dataLen : Nat) (data rawCStrings : Bytes) (rawPointers : List Nat)
+    (groups : List (Nat × List Nat)) (rawLabels : List Nat) (rawText : Bytes) : Bytes :=
   let rawPointers := rawPointers ++ groups.flatMap (fun g => sortNat (g.2.map (· % 2 ^ 32)))
-  let fileSize := a.data.length + rawCStrings.length + rawPointers.length * 4
-    + rawLabels.length * 4 + tp.raw.length + 0x20
+  let fileSize := dataLen + rawCStrings.length + rawPointers.length * 4
+    + rawLabels.length * 4 + rawText.length + 0x20
   let header := u32s e [fileSize, (data.length % 2 ^ 32 + rawCStrings.length % 2 ^ 32),
     rawPointers.length, rawLabels.length / 2] ++ List.replicate 16 0
-  pure (header ++ data ++ rawCStrings ++ u32s e rawPointers ++ u32s e rawLabels ++ tp.raw)
+  header ++ data ++ rawCStrings ++ u32s e rawPointers ++ u32s e rawLabels ++ rawText
+
+/-- `serialize` from the pointer sort on (`:345-416`): `rawCStrings` is the padded pool,
+`pointers` the internal pointers followed by the c-string pointers. -/
+def serializeTail (c : Codec) (e : Endian) (data0 rawCStrings : Bytes) (pointers : List (Nat × Nat))
+    (labels : UMap Nat (List Str)) (text : UMap Nat Str) : Res Bytes :=
+  -- internal pointers (plus c-string pointers), ascending by source
+  match (pointers.mergeSort bySource).foldlM (fun d p => patchWord e d p.1 p.2) data0 with
+  | .ok data =>
+    let rawPointers := (pointers.mergeSort bySource).map (·.1)
+    -- labels
+    match ((labels.mergeSort (labelLe e)).flatMap (fun p => p.2.map (fun l => (p.1, l)))).foldlM
+        (labelStep c) ((⟨[], []⟩ : TextPool), ([] : List Nat)) with
+    | .ok (tp, rawLabels) =>
+      -- strings
+      let textStart := data0.length + rawCStrings.length
+        + (rawPointers.length + text.length + rawLabels.length) * 4
+      match (text.mergeSort bySource).foldlM (textStep c e textStart)
+          (tp, data, ([] : List (Nat × List Nat))) with
+      | .ok (tp, data, groups) =>
+        .ok (assemble e data0.length data rawCStrings rawPointers groups rawLabels tp.raw)
+      | .err er => .err er
+      | .panic => .panic
+    | .err er => .err er
+    | .panic => .panic
+  | .err er => .err er
+  | .panic => .panic
+
+/-- `serialize` (after fixes D1, D2). -/
+def serialize (c : Codec) (a : BinArchive) : Res Bytes :=
+  -- c-string pool (`:325-343`)
+  match (a.cstrings.mergeSort (cstrLe c)).foldlM (cstringStep c a.data.length)
+      ((⟨[], []⟩ : TextPool), ([] : List (Nat × Nat))) with
+  | .ok (pool, cptrs) =>
+    serializeTail c a.endian a.data (padTo4 pool.raw) (a.pointers ++ cptrs) a.labels a.text
+  | .err er => .err er
+  | .panic => .panic
 
 /-! ### parsing -/
 
@@ -458,31 +509,39 @@ def sjisAt (c : Codec) (b : Bytes) (pos : Nat) : Res Str :=
   | some s => .ok (c.dec s)
   | none => .err .Unterminated
 
+/-- One pointer-table entry of `from_bytes` (`:271-281`), after the entry has been read. -/
+def parsePointerAt (c : Codec) (bytes : Bytes) (dataSize : Nat) (a : BinArchive) (ptrAddr : Nat) :
+    Res BinArchive :=
+  match readU32 a ptrAddr with
+  | .ok v =>
+    if v > dataSize then
+      match sjisAt c bytes (v + 0x20) with
+      | .ok s => writeString a ptrAddr (some s)
+      | .err er => .err er
+      | .panic => .panic
+    else writePointer a ptrAddr (some v)
+  | .err er => .err er
+  | .panic => .panic
+
 /-- One pointer-table entry of `from_bytes`. -/
 def parsePointer (c : Codec) (e : Endian) (bytes : Bytes) (dataSize : Nat)
     (a : BinArchive) (pos : Nat) : Res BinArchive :=
   match u32At e bytes pos with
   | none => .err .Eof
-  | some ptrAddr =>
-    match readU32 a ptrAddr with
-    | .ok v =>
-      if v > dataSize then
-        match sjisAt c bytes (v + 0x20) with
-        | .ok s => writeString a ptrAddr (some s)
-        | .err er => .err er
-        | .panic => .panic
-      else writePointer a ptrAddr (some v)
-    | .err er => .err er
-    | .panic => .panic
+  | some ptrAddr => parsePointerAt c bytes dataSize a ptrAddr
+
+/-- One label-table entry of `from_bytes` (`:285-292`), after the entry has been read. -/
+def parseLabelAt (c : Codec) (bytes : Bytes) (textStart : Nat) (a : BinArchive)
+    (address offset : Nat) : Res BinArchive :=
+  match sjisAt c bytes (textStart + offset + 0x20) with
+  | .ok s => writeLabel a address s
+  | .err er => .err er
+  | .panic => .panic
 
 def parseLabel (c : Codec) (e : Endian) (bytes : Bytes) (textStart : Nat)
     (a : BinArchive) (pos : Nat) : Res BinArchive :=
   match u32At e bytes pos, u32At e bytes (pos + 4) with
-  | some address, some offset =>
-    match sjisAt c bytes (textStart + offset + 0x20) with
-    | .ok s => writeLabel a address s
-    | .err er => .err er
-    | .panic => .panic
+  | some address, some offset => parseLabelAt c bytes textStart a address offset
   | _, _ => .err .Eof
 
 /-- `from_bytes` (after fix D6: the header sum is computed without 32-bit overflow). -/
